@@ -359,8 +359,16 @@ class Run:
                                          {"theorem": "grep gate", "hits": bad}, no_input=True))
         if gen:
             gen()
-        ok, log = coq_make()
-        self.checker_cmds.append("coq_makefile -f _CoqProject -o Makefile && make -j8 (full .vo build, coqc 8.16.1)")
+        # build only what this property needs (its Property.vo and Exec.vo with their
+        # dependencies), so that one property's development cannot break another's check
+        targets = []
+        for pf in property_files:
+            targets.append("theories/" + pf[:-2] + ".vo")
+            ex = os.path.join(os.path.dirname(pf), "Exec.v")
+            if os.path.exists(os.path.join(THEORIES, ex)):
+                targets.append("theories/" + ex[:-2] + ".vo")
+        ok, log = coq_make(targets=targets)
+        self.checker_cmds.append("coq_makefile -f _CoqProject -o Makefile && make -j8 %s (full .vo build, coqc 8.16.1)" % " ".join(targets))
         if not ok:
             m = re.search(r'File "([^"]+)", line (\d+).*?\n(Error:.*?)(?:\n\n|\Z)', log, re.S)
             where = "%s:%s %s" % (m.group(1), m.group(2), " ".join(m.group(3).split())[:300]) if m else log[-500:]
